@@ -62,7 +62,10 @@ SPECS = {
                  "all reduced residues -- every entry checked by TLC against the tabulated definition (greatest common divisor by "
                  "divisibility, Some iff gcd | c and a*x+b*y=c, unique z in [0,lcm)); plus sampled large operands (|.| up to 2^20 for "
                  "egcd/crt, up to 2^60 / 2^100 for gcd/lcm on i64, u64, i128) checked on BigInt with witnesses (cofactors and a Bezout "
-                 "pair prove g is the gcd; c = g*k + rem with 0 < rem < g proves a None). Non-trivial = every table entry / big event."),
+                 "pair prove g is the gcd; c = g*k + rem with 0 < rem < g proves a None); plus, for each of the 12 types, gcd of all pairs "
+                 "from {MAX, MAX-1, MAX-2, MAX/2, MAX/2+1, MAX/2+2 (= 2^(k-1) +- 1 for unsigned), 2/3, 3/4, 4/5 of MAX, 0, 1, 2, 3, 6} in "
+                 "all sign patterns and lcm wherever it fits (u128 above 2^127 with evident witnesses), run with overflow checks. "
+                 "Non-trivial = every table entry / big event."),
         "assumptions": [
             "witnesses come from the harness's own 128-bit extended Euclid; the specification accepts a claim only if the defining "
             "relation holds",
@@ -84,13 +87,14 @@ SPECS = {
     "sieve": {
         "module": "SieveTrace",
         "release": True,
+        "also_debug": True,
         "exhaustive": True,
         "rule": ("I->S: Sieve::new(N) for EVERY N in 0..2000 (thorough 0..4000): the complete min_prime and is_prime tables and the prime "
                  "list compared by TLC with the tabulated arithmetic definitions (least divisor >= 2 by trial division); factorize(n) "
                  "through the real iterator for all n <= N at every 97th limit and for the top three n at every limit; N = 1e6 "
                  "(thorough also 1e7): 2.6k-6k sampled n (primes, prime squares +-1, products of two large primes, the last 100 entries, "
                  "random) checked by trial division with the tabulated primes, pi(N) and sampled consecutive prime pairs (no prime "
-                 "between). Non-trivial = every table entry."),
+                 "between). Recorded twice: from the optimised build and from a build with overflow checks. Non-trivial = every table entry."),
         "assumptions": [
             "limits 1e6 / 1e7 are sampled, not compared element by element (beyond TLC's throughput); pi(1e6) = 78498 and pi(1e7) = 664579 "
             "are taken as known constants",
@@ -120,7 +124,7 @@ SPECS = {
                  "range in exactly one dimension by 0..2 (flagged when its flattened offset is still inside the storage), zero-extent and "
                  "length-mismatch constructor calls, every other shape of the same rank and element count, and the text rendering; the "
                  "harness checks from_vec / from_slice / new+index_mut, get_index, iter, Index and IndexMut panics, constructor rejections, "
-                 "equality, Writable output and Tensor::read. I->S: IO round trips of random shapes (extents <= 5) and values through the "
+                 "equality and != as its negation, Writable output and Tensor::read. I->S: IO round trips of random shapes (extents <= 5) and values through the "
                  "real Writer and Reader (chunked source), judged by TensorTrace. Non-trivial = shape of rank >= 2."),
         "assumptions": [
             "element type i64; a panic is observed with catch_unwind",
@@ -129,14 +133,15 @@ SPECS = {
     "rand": {
         "module": "RandTrace",
         "release": True,
+        "also_debug": True,
         "rule": ("I->S through the public trait method gen_from_u64 with ADVERSARIAL raw outputs (0, 1, 2^64-1, 2^53 and 2^63 neighbourhoods, "
                  "multiples of the range length +-1, the largest multiple below 2^64): every (start, end) pair of i8 and u8 (quick: every "
                  "second start) in all five range forms, boundary ranges (length 1, 2^k, MAX, full width, MIN+1..=MAX) of the 16/32/64-bit and "
-                 "pointer-sized types; reachability of every value of small ranges; twelve half-open float ranges (incl. denormal, huge, "
-                 "one-ulp-wide) x 118 raws compared in IEEE order on bit patterns; equal-seed / copied generators; shuffles as permutations; "
+                 "pointer-sized types; reachability of every value of small ranges; twenty half-open float ranges (incl. denormal, huge, "
+                 "one-ulp-wide, and finite ranges whose length overflows to infinity) x 124 raws (incl. those whose 53-bit fraction is zero) compared in IEEE order on bit patterns; equal-seed / copied generators; shuffles as permutations; "
                  "arrangement histograms of 1..k (k <= 5, thorough 6) over 1e5 (5e5) random seeds: all k! reached, each within 30% of the "
                  "mean (> 7 sigma); 4096-draw sequences from ranges of length 2,3,4,8,16,256 must have no period <= 64. Non-trivial = every "
-                 "draw."),
+                 "draw. Recorded from the optimised build and from a build with overflow checks."),
         "assumptions": [
             "statistical clauses use fixed thresholds whose false-alarm probability on a correct implementation is < 1e-9 per run",
             "seeds for the histograms are random 64-bit values from the harness's own generator (seeded by VERIF_SEED)",
@@ -148,7 +153,8 @@ SPECS = {
         "rule": ("I->S: exhaustive lattice configurations -- circle pairs with centres in a 9x9 (thorough 11x11) window and radii 1..5 (6), "
                  "circles against lines through two lattice points with primitive directions, line pairs, points against circles and lines; "
                  "every tangency through Pythagorean triples is among them -- plus dyadic real-valued configurations (multiples of 2^-10, "
-                 "magnitude 1000) and constructed outer/inner tangencies, tangent lines and 2^-29..2^-26 shallow overlaps at arbitrary "
+                 "magnitude 1000), nearly axis-parallel lines (multiples of 2^-20; normalised small coefficient between 1e-9 and 1e-6) crossed "
+                 "by ordinary lines and circles in either argument order, and constructed outer/inner tangencies, tangent lines and 2^-29..2^-26 shallow overlaps at arbitrary "
                  "dyadic positions. The specification decides the exact kind by comparing squared integers (BigInt at scale 2^-30) and "
                  "demands it when the configuration is exactly tangent or >= 2^-20 away from a boundary between kinds (not judged in "
                  "between: a band much wider than the library's 1e-9), and checks EVERY returned point against both primitives with "
@@ -168,7 +174,8 @@ SPECS = {
                  "quick, all pairs in thorough), random bit patterns and chains of 2-4 operations whose intermediate results use all 64 "
                  "significand bits; f64 -> f80 -> f64 on boundary and random patterns; f80 -> f64 narrowing of results inside the normal f64 "
                  "range; all nine relations (<, <=, >, >=, partial_cmp, ==, min, max, abs) on pairs of the boundary set extended with values "
-                 "that need 64 bits. Operands and results are decoded from their bytes by bit slicing; TLC checks the round-to-nearest-even "
+                 "that need 64 bits and with intermediate results no f64 can hold (1e-600, 1e600, 2^-1076, 1 - 2^-64, just above f64::MAX). "
+                 "Operands and results are decoded from their bytes by bit slicing; TLC checks the round-to-nearest-even "
                  "inequality on exact BigNat integers (no division) and the IEEE case analysis. Non-trivial = every event."),
         "assumptions": [
             "x87 only (the crate is x86-only); precision control is the Linux default (64-bit significand)",
@@ -217,6 +224,12 @@ def run(ctx, comp):
                  keyfn=lambda m: key(comp, m), heap=sp.get("heap", "12g"))
     ctx.extra["record_info"] = info
     ctx.distinct_nontrivial += info.get("nontrivial", info.get("events", 0))
+    if sp.get("also_debug"):
+        # the same recording from a build with overflow checks and debug assertions (what `cargo test` runs)
+        dbg = ctx.build(release=False)
+        trace2, info2 = ctx.record(dbg, comp, stage="record-debug-build", name="trace-record-debug.ndjson")
+        ctx.validate(comp, sp["module"], ctx.cfg(comp, sp["module"] + ".cfg"), trace2, stage="validate-debug-build", runs=info2.get("runs", 1),
+                     timeout=ctx.q(1200, 6000), keyfn=lambda m: key(comp, m), heap=sp.get("heap", "12g"))
     ctx.assumptions += ["TLC 1.8 evaluates the TLA+ specifications correctly"] + sp["assumptions"]
     if sp.get("exhaustive"):
         ctx.exhaustive = True
